@@ -41,6 +41,8 @@ def seeded() -> str:
         m = json.loads(Path(f).read_text())
         if m["id"] in summ:
             m["breaks"], m["needs"] = summ[m["id"]]["breaks"], summ[m["id"]]["needs"]
+            if summ[m["id"]].get("after"):
+                m["result"] = (m.get("result", "") + " — " + summ[m["id"]]["after"])
         else:
             m["breaks"], m["needs"] = m.get("breaks", "")[:160], m.get("needs", "")[:120]
         rows.append(m)
@@ -57,9 +59,38 @@ def seeded() -> str:
     return "\n".join(out)
 
 
+def all_findings():
+    out = []
+    for f in [V / "known_findings.json"] + sorted((V / "known_findings.d").glob("*.json")):
+        d = json.loads(f.read_text())
+        out += d["findings"] if isinstance(d, dict) else d
+    return out
+
+
+def repairs() -> str:
+    import subprocess
+    log = subprocess.run(["git", "-C", "/repo", "log", "--reverse", "--grep", "^fix:", "--format=%h\t%s"], capture_output=True, text=True).stdout.strip().split("\n")
+    by_commit = {}
+    for e in all_findings():
+        if e.get("status") == "fixed" and e.get("commit"):
+            by_commit.setdefault(e["commit"][:7], set()).add(e["property"])
+    legacy = {"ca4e69e": {"C18"}, "c54d5f0": {"C20"}, "147f414": {"C13"}, "8cae042": {"C15"}, "0267ed8": {"C15", "C09"}, "8ac3bda": {"C01", "C09"},
+              "668e668": {"C07", "C17", "C10"}, "371114e": {"C01", "C02", "C08"}}
+    rows = ["| Commit | Properties | Subject of the `fix:` commit |", "|---|---|---|"]
+    for ln in log:
+        if not ln.strip():
+            continue
+        h, subj = ln.split("\t", 1)
+        props = sorted(by_commit.get(h[:7], set()) | legacy.get(h[:7], set()))
+        rows.append(f"| `{h}` | {' '.join(props) or '—'} | {subj[5:].strip()} |")
+    return "\n".join(rows)
+
+
 def main() -> None:
     t = (V / "DESIGN.template.md").read_text()
-    t = t.replace("@APPENDIX@", appendix()).replace("@SEEDED@", seeded())
+    fs = all_findings()
+    t = t.replace("@APPENDIX@", appendix()).replace("@SEEDED@", seeded()).replace("@REPAIRS@", repairs())
+    t = t.replace("@NKNOWN@", str(sum(1 for e in fs if e.get("status") == "known"))).replace("@NFIXED@", str(sum(1 for e in fs if e.get("status") == "fixed")))
     (V / "DESIGN.md").write_text(t)
     print("DESIGN.md written")
 
